@@ -198,6 +198,7 @@ class PWLCalibration(keras.layers.Layer):
     # pyformat: enable
     super(PWLCalibration, self).__init__(**kwargs)
 
+    utils.verify_units(units)
     pwl_calibration_lib.verify_hyperparameters(
         input_keypoints=input_keypoints,
         output_min=output_min,
